@@ -17,6 +17,7 @@ import (
 func c10StartTLS(h *H) {
 	greeting := "* OK [CAPABILITY IMAP4rev1 STARTTLS LOGINDISABLED] ready\r\n"
 	suffixes := []string{"", "* BYE going away\r\n", "\n", "* OK [CAPABILITY IMAP4rev1 AUTH=PLAIN] hi\r\n", "T2 OK x\r\n", "\x16\x03\x01"}
+	hangs := 0
 	for _, status := range []string{"OK begin TLS now", "NO not now", "BAD what"} {
 		for _, suffix := range suffixes {
 			for _, then := range []string{"close", "alert-then-close", "reset"} {
@@ -66,11 +67,15 @@ func c10StartTLS(h *H) {
 				case <-done:
 					// returned (the TLS handshake itself is lazy: a nil error says nothing about it)
 				case <-time.After(8 * time.Second):
+					hangs++
 					h.Fail("call-hangs:starttls:"+then, fmt.Sprintf("NewStartTLS did not return within 8 s (tagged %q and %q sent in one write, then %s)", status, suffix, then), desc)
 					cli.Close()
 				}
 				h.Eval(fmt.Sprintf("starttls|%s|%q|%s", status, suffix, then))
 				h.Hist("op:starttls")
+				if hangs >= 3 {
+					return // established; every further hang would cost another watchdog period
+				}
 			}
 		}
 	}
